@@ -239,7 +239,9 @@ class StubSim(mosaik_api_v3.Simulator):
             run.rec("fault", kind, self.sid, func, n, others)
             run.fault_state["fired"] = run.fault_state.get("fired", 0) + 1
             run.in_flight[self.sid] = run.in_flight.get(self.sid, 1) - 1
-            raise SimFault(f"injected failure in {self.sid}.{func} (request {n})")
+            exc_cls = {"ValueError": ValueError, "TypeError": TypeError, "KeyError": KeyError,
+                       "RuntimeError": RuntimeError}.get(f.get("exc"), SimFault)
+            raise exc_cls(f"injected failure in {self.sid}.{func} (request {n})")
         others = sum(1 for s, v in run.in_flight_mosaik.items() if v > 0 and s != self.sid)
         node = getattr(self, "_node", None)
         if node is None:
